@@ -126,6 +126,11 @@ def master_loop_cases(ctx):
         r = ctx.rng("net", nets)
         if ctx.thorough and nets % 9 == 0:
             sizes = [int(r.integers(101, 131))]
+        elif nets % 6 == 3:
+            # component sizes at which the chunk bookkeeping rounds: a last
+            # chunk shorter than half a step, a chunk of a single node
+            sizes = [int(r.choice([64, 73, 74, 82, 91, 101, 111]))]
+            ctx.count("chunk_rounding_sizes")
         else:
             sizes = [int(v) for v in r.integers(11, 46, int(r.integers(1, 3)))]
             if nets % 5 == 0:
@@ -135,7 +140,7 @@ def master_loop_cases(ctx):
         w = G.pos_weights(r, n)
         serial = {}
         for m, kw in MEASURES:
-            if max(sizes) > 100 and m == "nsi_arenas_betweenness":
+            if max(sizes) > 60 and m == "nsi_arenas_betweenness":
                 continue     # O(N^4): out of budget at this size
             for rep in range(3 if ctx.thorough else 2):
                 k += 1
